@@ -184,7 +184,7 @@ func (d *bdec) value(depth int) (any, error) {
 			return nil, ErrBencode
 		}
 		n, err := strconv.ParseInt(s, 10, 64)
-		if err != nil || n < 0 || int64(d.i+j+1)+n > int64(len(d.b)) {
+		if err != nil || n < 0 || n > int64(len(d.b)-(d.i+j+1)) {
 			return nil, ErrBencode
 		}
 		st := d.i + j + 1
